@@ -71,6 +71,7 @@ def make(cls):
         return DistEdge([3, 5], mkinfo(1), est, vs)
     if cat == 'graph':
         vs = [Vertex(1, mkpose(k)), Vertex(2, mkpose(k, 1.0)), Vertex(9, mkpose(k, 2.0))]
+        vs[2].pose[:B.DIM[k]] *= 5000.0          # one far-away vertex: a comparison relative to the WHOLE graph would hide differences of the others
         # a nearly consistent graph (residuals ~1e-3): its chi^2 reacts strongly to perturbations far below the tolerance
         small = np.full(B.CDIM[k], 1e-3)
         z12 = (vs[1].pose - vs[0].pose) + small
